@@ -133,6 +133,14 @@ func tryReplay(w *world, o *vc.OblResult, ex *vc.Exec, rp *Replay) {
 			}
 		}
 		if match {
+			// the outcome must be one the clause speaks about: for `A ==> B` with
+			// A over the nil-ness of results (err == nil ==> ...), an outcome with
+			// A false satisfies the clause trivially and demonstrates nothing;
+			// likewise an input that breaks a nil-ness precondition
+			if why := vacuousReplay(useEx, o.O, plan, observed); why != "" {
+				rp.Notes = append(rp.Notes, why)
+				return
+			}
 			rp.Confirmed = true
 			rp.Notes = append(rp.Notes, "the real function returns the outcome the counterexample predicts for this input (compared: nil-ness of pointers, errors and slices, slice lengths, scalar results); for that input/outcome pair the contract clause is false")
 		}
@@ -259,4 +267,97 @@ func cmdReplay(args []string) {
 		os.Exit(1)
 	}
 	fmt.Println("not reproduced on the current tree")
+}
+
+
+// vacuousReplay reports why an observed outcome / constructed input cannot
+// count as a demonstration of a violated postcondition ("" when it can).
+func vacuousReplay(ex *vc.Exec, o *vc.Obligation, plan *vc.ReplayPlan, observed map[int]string) string {
+	spec := ex.Spec
+	if spec == nil {
+		return ""
+	}
+	tag := o.Label
+	if i := strings.LastIndex(tag, "@ret"); i >= 0 {
+		tag = tag[:i]
+	}
+	// nil-ness of parameters (from the generated argument expressions) and of
+	// results (from the observed outcome)
+	isNil := map[string]*bool{}
+	for i, n := range spec.Params {
+		if i < len(plan.ArgExprs) {
+			a := strings.TrimSpace(plan.ArgExprs[i])
+			v := a == "nil" || strings.HasSuffix(a, "(nil)")
+			isNil[n] = &v
+		}
+	}
+	for _, rq := range spec.Requires {
+		if v, ok := evalNilness(rq.Expr, isNil); ok && !v {
+			return "the constructed input does not satisfy the precondition `" + rq.Text + "`: not a demonstration"
+		}
+	}
+	for i, n := range spec.Results {
+		if ob, ok := observed[i]; ok && (ob == "nil" || ob == "non-nil" || strings.HasPrefix(ob, "len=")) {
+			v := ob == "nil"
+			isNil[n] = &v
+		}
+	}
+	for _, en := range spec.Ensures {
+		lbl := en.Tag
+		if lbl == "" {
+			lbl = en.Text
+		}
+		if lbl != tag {
+			continue
+		}
+		if b, ok := en.Expr.(*vc.SBin); ok && b.Op == "==>" {
+			if v, ok := evalNilness(b.L, isNil); ok && !v {
+				return "for the observed outcome the antecedent of the clause is false, so the clause says nothing about it: not a demonstration"
+			}
+		}
+	}
+	return ""
+}
+
+// evalNilness evaluates a boolean combination of `x == nil` / `x != nil`
+// atoms; ok is false when the expression contains anything else.
+func evalNilness(x vc.SExpr, isNil map[string]*bool) (val, ok bool) {
+	switch n := x.(type) {
+	case *vc.SBin:
+		switch n.Op {
+		case "&&", "||":
+			l, lok := evalNilness(n.L, isNil)
+			r, rok := evalNilness(n.R, isNil)
+			if n.Op == "&&" {
+				if (lok && !l) || (rok && !r) {
+					return false, true
+				}
+				return l && r, lok && rok
+			}
+			if (lok && l) || (rok && r) {
+				return true, true
+			}
+			return l || r, lok && rok
+		case "==", "!=":
+			id, isId := n.L.(*vc.SIdent)
+			nl, isNl := n.R.(*vc.SIdent)
+			if !isId || !isNl || nl.Name != "nil" {
+				return false, false
+			}
+			v, known := isNil[id.Name]
+			if !known || v == nil {
+				return false, false
+			}
+			if n.Op == "==" {
+				return *v, true
+			}
+			return !*v, true
+		}
+	case *vc.SUn:
+		if n.Op == "!" {
+			v, ok := evalNilness(n.X, isNil)
+			return !v, ok
+		}
+	}
+	return false, false
 }
